@@ -4,6 +4,8 @@ import (
 	"context"
 	"sync"
 	"time"
+
+	"github.com/rqlite/rqlite/v10/internal/verifhook"
 )
 
 // Throttler gates write requests based on system load signals. When the
@@ -97,6 +99,7 @@ func (t *Throttler) Release() {
 
 // Reset removes all delay immediately.
 func (t *Throttler) Reset() {
+	verifhook.Yield("throttler.reset.pre")
 	t.mu.Lock()
 	defer t.mu.Unlock()
 	t.delayFactor = 0
